@@ -191,7 +191,7 @@ PROPS = {
                     sched_stream(nontrivial=["c09-concurrent-run"], quick=(6, 8, 80), what="L3 calls-only programs on PLAIN Result functions with an impure body (one thread's calls succeed, the others' fail for the same arguments) under the deterministic scheduler: an Err is never served from the cache, and once an Ok-storing call has returned every call started later is served without running the body (a failing call that finishes late does not disturb the stored Ok)")],
         "monitors": ["C09"],
         "rule": "generated call histories on real generated functions with scripted Ok/Err outcomes per call (impure body driven by the harness), both recognised Result spellings, all flavours, with and without max_memory; non-trivial = a call of a Result function without cache_if",
-        "level_text": "Lean theorems about the generated wrapper: an Err outcome leaves the cache exactly as the lookup left it, an Ok is handed to the engine, the body runs iff the lookup missed, every stored value is Ok in every reachable state (no call is ever served an Err), while all outcomes for a key were Err every call runs the body, and after the first Ok (absent eviction pressure) every later call is served it. Tied to the code by per-call comparison of return values, body-execution counts and cache dumps of real generated functions.",
+        "level_text": "Lean theorems about the generated wrapper: an Err outcome leaves the cache exactly as the lookup left it, an Ok is handed to the engine, the body runs iff the lookup missed, every stored value is Ok in every reachable state (no call is ever served an Err), while all outcomes for a key were Err every call runs the body, and after the first Ok (absent eviction pressure) every later call is served it. Under concurrency (C09c: interleaving model of wrapper calls with IMPURE per-call outcomes, any number of callers, any schedule, both engines): a call whose result is not stored performs exactly the micro-steps of a lookup; no stored pair and no served value is ever an Err; in the plain configuration a stored Ok stays stored and, once an Ok-storing call has returned, no later call runs the body whatever failing calls finish later; while nothing was written every failing call runs the body. Tied to the code by per-call comparison of return values, body-execution counts and cache dumps of real generated functions, and by scheduled runs of real threads on plain Result functions whose calls succeed on one thread and fail on the others.",
         "level_note": MODEL_NOTE + " KNOWN FINDING F7: return types that are Result but spelled through an alias, core::result::Result or a leading :: are not recognised by the macro (textual test) and their Err values are cached; the theorem is about the recognised spellings.",
         "technique": TECH, "design_ref": "DESIGN.md §7 C09",
         "assumptions": ["return type spelled Result<..> or std::result::Result<..>"],
@@ -264,8 +264,8 @@ PROPS = {
         "streams": [sched_stream(nontrivial=["nested-acquisition", "concurrent-call"]), hammer_stream(), static_stream()],
         "monitors": ["C18"],
         "rule": "scheduled runs of 2-3 real threads (calls overflowing a hot cache, group and conditional invalidations) followed by quiescent dumps and a 5-call sequential probe; non-trivial = a run with nested acquisitions or concurrent calls; distinct by (schedule, event trace)",
-        "level_text": "Lean theorems over a data-carrying interleaving model (one atomic micro-step per critical section, any number of threads, programs and schedules): every call returns f(k) for its own key; ASYNC: the store/queue invariant, the entry limit and the memory bound hold after EVERY micro-step; SYNC (store write precedes the queue push): at every point stored keys missing from the queue belong to in-flight stores and |store| <= limit + |in flight|; at quiescence every stored key is queued (evictable, expirable, invalidatable), the queue is duplicate-free, |store| <= limit under every policy and total memory <= max_memory; sequential use after quiescence keeps the bounds and correct values under the weaker invariant (orphan queue keys allowed); a one-thread system is exactly Cachelito.run. The pre-fix clear (F6) and async expired lookup (F8) are refuted with concrete schedules. Tied to the code by the scheduled runs: every recorded REAL schedule (one thread id per critical section, derived from the hook events) is replayed on the interleaving model (ConcData.creplay) from the dumped initial state and must reproduce the final store/queue and every lookup result; plus values per call, quiescent dumps checked directly, probe history vs the model from the dumped state, lock traces vs skeletons; plus a free-running parallel stress stream.",
-        "level_note": MODEL_NOTE + " The replay covers the hot cache of each program (policies other than Random, whose draws are not recorded). DashMap operations are atomic in the model; sync insert_with_memory's queue section is one micro-step.",
+        "level_text": "Lean theorems over a data-carrying interleaving model (one atomic micro-step per critical section, any number of threads, programs and schedules): every call returns f(k) for its own key; ASYNC: the store/queue invariant, the entry limit and the memory bound hold after EVERY micro-step; SYNC (store write precedes the queue push): at every point stored keys missing from the queue belong to in-flight stores and |store| <= limit + |in flight|; at quiescence every stored key is queued (evictable, expirable, invalidatable), the queue is duplicate-free, |store| <= limit under every policy and total memory <= max_memory; sequential use after quiescence keeps the bounds and correct values under the weaker invariant (orphan queue keys allowed); a one-thread system is exactly Cachelito.run. C18f re-proves values, the in-flight invariant, quiescent tracking, the entry limit and the memory bound for the FINE model in which every store-lock section of the sync insert_with_memory (size read, oversize removal, each sum and each eviction of the memory loop, limit step) is its own micro-step, other threads' store-only sections fall between them and the queue mutex is explicit (exclusive, its holder never blocked); one thread alone computes exactly the coarse step, and every coarse schedule is a fine schedule. The pre-fix clear (F6) and async expired lookup (F8) are refuted with concrete schedules. Tied to the code by the scheduled runs: every recorded REAL schedule (one thread id per critical section, derived from the hook events) is replayed on the interleaving model (ConcData.creplay) from the dumped initial state and must reproduce the final store/queue and every lookup result; plus values per call, quiescent dumps checked directly, probe history vs the model from the dumped state, lock traces vs skeletons; plus a free-running parallel stress stream.",
+        "level_note": MODEL_NOTE + " The replay covers the hot cache of each program (policies other than Random, whose draws are not recorded). DashMap operations are atomic in the model; the REPLAY uses the coarse model (sync insert_with_memory's queue section one micro-step; runs it cannot represent are skipped), the fine model C18f is not replayed.",
         "technique": "Lean 4 theorem (invariants over all interleavings of atomic critical sections) + deterministic schedule exploration of real threads with quiescent-state and probe comparison",
         "design_ref": "DESIGN.md §7 C18", "assumptions": ["DashMap operations are linearizable"],
     },
@@ -275,7 +275,7 @@ PROPS = {
                     sched_stream(nontrivial=["quiescent-stats-checked"], quick=(6, 8, 50)), hammer_stream(), counters_stream(), stats_stream()],
         "monitors": ["C15"],
         "rule": "L1: counters in every state dump; L2: stats_registry::get(name) after every call, get/reset by name incl. unknown names; non-trivial = hit, expiry-as-miss, stats query or reset",
-        "level_text": "Lean theorems (sequential): every lookup bumps exactly one counter, hits iff it returned a value (an expired entry is a miss), nothing else touches the counters, hits+misses = number of lookups for every history. Tied to the code by the counters in every L1 state dump and by the registry's per-name statistics after every L2 call. Concurrent part: in scheduled runs of real threads (incl. lookups of expired entries racing with each other and with stores) hits+misses at quiescence must equal the number of completed calls and hits the number of calls served from the cache; and (C15c) in the interleaving model the counters equal the number of counted lookups at every point of every schedule and are exact at quiescence, hits = lookups that returned a value (fetch_add atomicity is assumed).",
+        "level_text": "Lean theorems (sequential): every lookup bumps exactly one counter, hits iff it returned a value (an expired entry is a miss), nothing else touches the counters, hits+misses = number of lookups for every history. Tied to the code by the counters in every L1 state dump and by the registry's per-name statistics after every L2 call. Concurrent part: in scheduled runs of real threads (incl. lookups of expired entries racing with each other and with stores) hits+misses at quiescence must equal the number of completed calls and hits the number of calls served from the cache; and (C15c) in the interleaving model the counters equal the number of counted lookups at every point of every schedule and are exact at quiescence, hits = lookups that returned a value (fetch_add atomicity is assumed). Registry level (C15r: the statistics registry as the table name -> counters cell it is, every public operation of stats_registry and CacheStats, every operation history): get(name) returns exactly the counters of the cell registered last under that name (a reference to the cache's own counters: recordings after registration are visible), counters = recordings since the last reset, reset(name) zeroes exactly that cell and is a frame for every other name with a distinct cell, list = the registered names, clear empties the table and changes no cell; and the abstract per-name counters of the system model are what the table computes for the macros' registrations (refinement). Tied to the code by driving the real stats_registry / CacheStats through arbitrary histories.",
         "level_note": MODEL_NOTE + " AtomicU64::fetch_add is assumed atomic.",
         "technique": TECH, "design_ref": "DESIGN.md §7 C15",
         "assumptions": ["distinct cache names"],
